@@ -2,6 +2,8 @@
 // and migrate, and writes what the library answered (one ndjson line per case).  No expectation is
 // evaluated here: every observed value is written under the key "<quantity>@<api>", <quantity>
 // being the name of the field of the case that the specification says it must equal.
+// Ordinary cases of one grid share one Grid / DbGrid object (whatever it was asked before); a
+// "history" case asks its operations, in order, to one NEW object ("steps" = one record per operation).
 //
 // usage: grid_run <cases.ndjson> <observed.ndjson> [first line to execute (0-based), append mode]
 // exit 0 = all cases executed; exit 88 = the library crashed in the case whose id is in the last
@@ -58,6 +60,7 @@ static VectorDouble dup(const VectorDouble& v) { VectorDouble r(v.size()); for (
 
 static std::unordered_map<long long, Ctx*> CACHE;
 
+static Ctx* freshContext(const Value& g);
 static MatrixSquareGeneral matrixFrom(const Value& m)
 {
   int nd = (int)m.arr.size();
@@ -99,8 +102,16 @@ static Ctx* context(const Value& c)
     for (auto& kv : CACHE) { delete kv.second->db; delete kv.second; }
     CACHE.clear();
   }
-  Ctx* x = new Ctx;
+  Ctx* x = freshContext(g);
   x->key = key;
+  CACHE[gid] = x;
+  return x;
+}
+
+// a new Grid and a new DbGrid, which have not been asked anything yet
+static Ctx* freshContext(const Value& g)
+{
+  Ctx* x = new Ctx;
   x->nd = g.at("nd").i();
   x->nx = vi(g.at("nx"));
   x->dx = vd(g.at("dx"));
@@ -119,7 +130,6 @@ static Ctx* context(const Value& c)
     x->grid.resetFromVector(x->nx, x->dx, x->x0, x->ang);
   }
   x->db = DbGrid::create(x->nx, x->dx, x->x0, x->ang);
-  CACHE[gid] = x;
   return x;
 }
 
@@ -607,6 +617,20 @@ static void runMigrate(const Value& c, Ctx* x, Value& o)
   delete pts;
 }
 
+static bool runKind(const std::string& k, const Value& c, Ctx* x, Value& o)
+{
+  if (k == "grid") runGrid(c, x, o);
+  else if (k == "node") runNode(c, x, o);
+  else if (k == "point") runPoint(c, x, o);
+  else if (k == "multiple") runMult(c, x, o, false);
+  else if (k == "divider") runMult(c, x, o, true);
+  else if (k == "dilate") runDilate(c, x, o);
+  else if (k == "subgrid") runSub(c, x, o);
+  else if (k == "migrate") runMigrate(c, x, o);
+  else { fprintf(stderr, "unknown case kind %s\n", k.c_str()); return false; }
+  return true;
+}
+
 int main(int argc, char** argv)
 {
   if (argc < 3) { fprintf(stderr, "usage: grid_run cases.ndjson observed.ndjson [start]\n"); return 2; }
@@ -632,17 +656,24 @@ int main(int argc, char** argv)
     o["id"] = Value(g_curid);
     try
     {
-      Ctx* x = context(c);
       const std::string& k = c.at("k").s();
-      if (k == "grid") runGrid(c, x, o);
-      else if (k == "node") runNode(c, x, o);
-      else if (k == "point") runPoint(c, x, o);
-      else if (k == "multiple") runMult(c, x, o, false);
-      else if (k == "divider") runMult(c, x, o, true);
-      else if (k == "dilate") runDilate(c, x, o);
-      else if (k == "subgrid") runSub(c, x, o);
-      else if (k == "migrate") runMigrate(c, x, o);
-      else { fprintf(stderr, "unknown case kind %s\n", k.c_str()); return 2; }
+      if (k == "history")
+      {
+        // the operations of the history are asked, in order, to ONE new object
+        Ctx* x = freshContext(c.at("g"));
+        Value steps = Value::array();
+        for (const Value& op : c.at("seq").arr)
+        {
+          Value so = Value::object();
+          so["id"] = Value(g_curid);
+          if (!runKind(op.at("k").s(), op, x, so)) return 2;
+          steps.push(so);
+        }
+        o["steps"] = steps;
+        delete x->db;
+        delete x;
+      }
+      else if (!runKind(k, c, context(c), o)) return 2;
     }
     catch (const std::exception& e)
     {
